@@ -320,34 +320,19 @@ def platform_atoms() -> list[str]:
     return out
 
 
-def combine_conditions(atoms: Sequence[str], rng: random.Random, n: int) -> list[str]:
-    """not / and / or combinations of depth <= 2 over the atoms."""
+COMBO_FORMS = ["not ({0})", "({0}) and ({1})", "({0}) or ({1})", "not (({0}) and ({1}))", "not (({0}) or ({1}))",
+               "(({0}) and ({1})) or ({2})", "(({0}) or ({1})) and ({2})", "(not ({0})) and ({1})", "({0}) or (not ({1}))",
+               "not (not ({0}))", "({0}) and (({1}) or ({2}))", "({0}) or (({1}) and ({2}))"]
+
+
+def combine_conditions(atoms: Sequence[str], rng: random.Random, n: int) -> list[tuple[str, str, tuple[str, ...]]]:
+    """not / and / or combinations of depth <= 2 over the atoms: (text, form, atoms used)."""
     out = []
     for _ in range(n):
-        a, b, c = rng.choice(atoms), rng.choice(atoms), rng.choice(atoms)
-        form = rng.randrange(10)
-        if form == 0:
-            s = f"not {a}" if " " not in a.split("(")[0] else f"not ({a})"
-            s = f"not ({a})"
-        elif form == 1:
-            s = f"({a}) and ({b})"
-        elif form == 2:
-            s = f"({a}) or ({b})"
-        elif form == 3:
-            s = f"not (({a}) and ({b}))"
-        elif form == 4:
-            s = f"not (({a}) or ({b}))"
-        elif form == 5:
-            s = f"(({a}) and ({b})) or ({c})"
-        elif form == 6:
-            s = f"(({a}) or ({b})) and ({c})"
-        elif form == 7:
-            s = f"(not ({a})) and ({b})"
-        elif form == 8:
-            s = f"({a}) or (not ({b}))"
-        else:
-            s = f"not (not ({a}))"
-        out.append(s)
+        form = rng.choice(COMBO_FORMS)
+        k = 3 if "{2}" in form else 2 if "{1}" in form else 1
+        used = tuple(rng.choice(atoms) for _ in range(k))
+        out.append((form.format(*used), form, used))
     return out
 
 
@@ -412,3 +397,96 @@ def random_fold_expr(rng: random.Random, depth: int, names: Sequence[str] = ()) 
     a = random_fold_expr(rng, depth - 1, names)
     b = random_fold_expr(rng, depth - 1, names)
     return f"({a}) {op} ({b})"
+
+
+# --- size guard: keeps generated expressions cheap to evaluate for BOTH sides (it is not the oracle) -----------------
+
+class _TooBig(Exception):
+    pass
+
+
+_MAX_BITS = 12000          # < 4300 decimal digits, so reprs stay printable
+_MAX_LEN = 20000
+
+
+def _guard_eval(node: Any, env: dict[str, Any]) -> Any:
+    """Evaluate an expression AST with pre-checks that refuse operations whose result would be huge or slow.
+    Raises _TooBig for those; any other exception means 'the expression raises at run time' (cheaply)."""
+    import ast
+    import operator as O
+
+    if isinstance(node, ast.Expression):
+        return _guard_eval(node.body, env)
+    if isinstance(node, ast.Constant):
+        return node.value
+    if isinstance(node, ast.Name):
+        if node.id in env:
+            v = env[node.id]
+            if isinstance(v, BaseException):
+                raise v
+            return v
+        raise NameError(node.id)
+    if isinstance(node, ast.UnaryOp):
+        v = _guard_eval(node.operand, env)
+        return {ast.USub: O.neg, ast.UAdd: O.pos, ast.Invert: O.invert, ast.Not: O.not_}[type(node.op)](v)
+    if isinstance(node, ast.BoolOp):
+        vals = [_guard_eval(x, env) for x in node.values]   # evaluates both sides (stricter than needed)
+        r = vals[0]
+        for v in vals[1:]:
+            r = (r and v) if isinstance(node.op, ast.And) else (r or v)
+        return r
+    if isinstance(node, ast.Compare):
+        l = _guard_eval(node.left, env)
+        r = _guard_eval(node.comparators[0], env)
+        if len(node.ops) != 1:
+            raise _TooBig()
+        op = node.ops[0]
+        fn = {ast.Eq: O.eq, ast.Lt: O.lt, ast.In: lambda a, b: a in b}.get(type(op))
+        if fn is None:
+            raise _TooBig()
+        return fn(l, r)
+    if isinstance(node, ast.BinOp):
+        l = _guard_eval(node.left, env)
+        r = _guard_eval(node.right, env)
+        op = type(node.op)
+        li, ri = isinstance(l, int), isinstance(r, int)
+        if op is ast.Pow and li and ri and r >= 0:
+            if abs(l) > 1 and l.bit_length() * r > _MAX_BITS:
+                raise _TooBig()
+        elif op is ast.Pow and li and ri and r < 0:
+            if abs(l) > 1 and -r > 10 ** 6 and False:
+                raise _TooBig()
+        elif op is ast.LShift and li and ri:
+            if l != 0 and 0 <= r < (1 << 62) and l.bit_length() + r > _MAX_BITS:
+                raise _TooBig()
+        elif op is ast.Mult:
+            for a, b in ((l, r), (r, l)):
+                if isinstance(a, (str, bytes)) and isinstance(b, int) and 0 < b < (1 << 62) and len(a) * b > _MAX_LEN:
+                    raise _TooBig()
+            if li and ri and l.bit_length() + r.bit_length() > _MAX_BITS:
+                raise _TooBig()
+        fn = {ast.Add: O.add, ast.Sub: O.sub, ast.Mult: O.mul, ast.Div: O.truediv, ast.FloorDiv: O.floordiv,
+              ast.Mod: O.mod, ast.Pow: O.pow, ast.LShift: O.lshift, ast.RShift: O.rshift, ast.BitAnd: O.and_,
+              ast.BitOr: O.or_, ast.BitXor: O.xor, ast.MatMult: O.matmul}[op]
+        v = fn(l, r)
+        if isinstance(v, int) and v.bit_length() > _MAX_BITS:
+            raise _TooBig()
+        return v
+    raise _TooBig()
+
+
+def fold_guard(expr: str, env: dict[str, Any] | None = None) -> tuple[bool, Any]:
+    """(cheap?, value-or-exception). Not an oracle: only decides whether the case is generated at all."""
+    import ast
+    import warnings
+    try:
+        with warnings.catch_warnings():
+            warnings.simplefilter("ignore")
+            tree = ast.parse(expr, mode="eval")
+            return True, _guard_eval(tree, env or {})
+    except _TooBig:
+        return False, None
+    except RecursionError:
+        return False, None
+    except BaseException as e:
+        return True, e
